@@ -49,6 +49,10 @@ the sleeping app thread can never finish: `CoopDeadlock`.  A link step that
 itself reaches a wait() without time-out sleeps until an application thread
 notifies; within this model (one application call) that is `LinkBlocked`.
 
+`PreemptSched` (below) turns the roles around for the C09 family
+`link_preempted`: the link thread is preempted at its lock acquisitions (and
+source lines) by one application call that runs in an OS thread of its own.
+
 The exceptions are BaseException subclasses so that no handler of the code
 under test can swallow them; the harness catches them at the call site.
 """
@@ -118,6 +122,8 @@ def _site(depth=2):
 
 class Sched(object):
     MAX_WAITS = 64
+    link_hook = None         # PreemptSched: callable(kind, site, lock) asked
+    #                          at every preemption point of the link thread
 
     def __init__(self, sx=None):
         self.sx = sx
@@ -222,6 +228,8 @@ class ThreadSched(Sched):
             self.result = None
             self.exc = None
             self.thread = None
+            self.wants = None           # PreemptSched: lock waited for
+            self.cond = None            # PreemptSched: condition waited on
 
     def spawn(self, name, fn):
         rec = ThreadSched.Rec(name, fn)
@@ -326,12 +334,120 @@ class ThreadSched(Sched):
         self.threads = {}
 
 
+class PreemptSched(ThreadSched):
+    """THE LINK THREAD IS PREEMPTED (C09 family `link_preempted`).  The link
+    thread is the harness's main OS thread (logical thread 'link', run through
+    `link_call`); the application call is an OS thread of ThreadSched (one
+    thread running at any time).  Preemption points of the link thread, each
+    reported to `link_hook(kind, site, lock)` which decides (symbolic flag)
+    whether the application thread runs there - until it ends or blocks:
+    * 'acquire'    the link thread acquires a lock it does not own,
+    * 'reacquire'  ... a lock it owns already (RLock recursion),
+    * 'release'    the link thread has let go of a lock (count 0) - where a
+                   thread that waits for that lock may go on,
+    * 'line'       before every source line of the functions `link_lines`
+                   (qualified names) the link thread executes (the hook gets
+                   the line number in place of the lock).
+    An application thread that needs a lock another logical thread owns is
+    descheduled there (`lock_wait`, state 'lockwait') and is runnable again
+    when the lock is free.  The link thread meeting a lock owned by a
+    descheduled application thread: `CoopDeadlock` when that thread can not
+    go on (it waits for a lock / a notify), else `Unrepresentable`."""
+
+    def __init__(self, sx=None):
+        ThreadSched.__init__(self, sx)
+        self.link_hook = None
+        self.link_lines = ()
+        self.lockwaits = []         # sites where an app thread met a held lock
+
+    # ---- application threads
+    def thread_wait(self, cond, timeout, site):
+        self.threads[self.current].cond = cond
+        return ThreadSched.thread_wait(self, cond, timeout, site)
+
+    def lock_wait(self, lock, site):
+        """application thread: descheduled until `lock` is free"""
+        rec = self.threads[self.current]
+        if rec.kill:
+            raise LeftWaiting(site)
+        self.lockwaits.append(site)
+        rec.state, rec.wants, rec.site = 'lockwait', lock, site
+        try:
+            while True:
+                self._switch('main', rec.name)
+                if rec.kill:
+                    raise LeftWaiting(site)
+                if not lock.count:
+                    return
+        finally:
+            rec.state, rec.wants = 'run', None
+
+    def can_go_on(self, name):
+        """the descheduled thread could run now: not started yet, waits for
+        a lock that is free, or was notified and the condition's lock is
+        free"""
+        rec = self.threads[name]
+        if rec.state == 'new':
+            return True
+        if rec.state == 'lockwait':
+            return rec.wants.count == 0
+        if rec.state == 'parked':
+            return bool(rec.cell[0]) and rec.cond.lock.count == 0
+        return False
+
+    def link_blocked(self, lock, site):
+        """the link thread needs `lock`, owned by a descheduled app thread"""
+        rec = self.threads.get(lock.owner)
+        mine = [k for k in self.locks if k.count and k.owner == 'link']
+        if rec is not None and rec.state == 'parked' and \
+                (rec.cell[0] or rec.timed):
+            raise Unrepresentable(site)     # the owner would go on first
+        if rec is not None and rec.state == 'lockwait' and \
+                rec.wants not in mine:
+            raise Unrepresentable(site)
+        raise CoopDeadlock(site, lock, getattr(rec, 'wants', None), mine)
+
+    # ---- the link thread
+    def link_tracer(self, frame, event, arg):
+        code = frame.f_code
+        if code.co_filename in self.trace_files and \
+                code.co_qualname in self.link_lines:
+            return self.link_line_tracer
+        return None
+
+    def link_line_tracer(self, frame, event, arg):
+        if event == 'line' and self.current == 'link' and \
+                self.link_hook is not None:
+            self.link_hook('line', frame.f_code.co_qualname, frame.f_lineno)
+        return self.link_line_tracer
+
+    def link_call(self, fn):
+        """run fn as the link thread, preemptible"""
+        prev = self.current
+        self.current = 'link'
+        if self.link_lines:
+            old = sys.gettrace()
+            sys.settrace(self.link_tracer)
+        try:
+            return fn()
+        finally:
+            if self.link_lines:
+                sys.settrace(old)
+            self.current = prev
+
+
 SCHED = Sched()
 
 
 def new_threaded(sx):
     global SCHED
     SCHED = ThreadSched(sx)
+    return SCHED
+
+
+def new_preempt(sx):
+    global SCHED
+    SCHED = PreemptSched(sx)
     return SCHED
 
 
@@ -351,8 +467,19 @@ class CoopRLock(object):
     def acquire(self, blocking=True, timeout=-1):
         s = SCHED
         me = s.current
+        if me == 'link' and s.link_hook is not None:
+            # the link thread is preemptible (PreemptSched)
+            s.link_hook('reacquire' if self.count and self.owner == me
+                        else 'acquire', _site(), self)
+        if self.count and self.owner != me and \
+                isinstance(s, PreemptSched) and me in s.threads:
+            # an application thread meets a held lock: descheduled until the
+            # lock is free
+            s.lock_wait(self, _site())
         if self.count and self.owner != me:
             # held by another logical thread
+            if me == 'link' and isinstance(s, PreemptSched):
+                s.link_blocked(self, _site())
             if me == 'link':
                 want = s.app_wants
                 mine = [k for k in s.locks if k.count and k.owner == 'link']
@@ -385,7 +512,10 @@ class CoopRLock(object):
         self.count -= 1
         if self.count == 0:
             SCHED.held[self.owner] -= 1
+            was = self.owner
             self.owner = None
+            if was == 'link' and SCHED.link_hook is not None:
+                SCHED.link_hook('release', _site(), self)
 
     def locked(self):
         return self.count > 0
